@@ -165,5 +165,12 @@ def stepOp (b : SBag) : Op → Option SBag × String
     if n < 0 || n ≥ b.length then (some b, "err")
     else (some { b with rows := b.rows.map fun r => (r.1, if fs then r.2.drop n.toNat else r.2.take (r.2.length - n.toNat)) }, "ok")
   | .autoAlpha => (some { b with alphabet := autoAlphabet (b.rows.map Prod.snd) }, "ok")
+  | .revcomp =>
+    -- only defined on nucleotides (an error otherwise, nothing changed); every residue is replaced by
+    -- its IUPAC complement and the order of the residues is reversed; a residue without a complement is
+    -- an error after which the content is unspecified
+    if b.alphabet != NUCLEOTIDS then (some b, "err") else
+    if b.rows.any (fun r => r.2.any fun c => (complementByte c).isNone) then (none, "err") else
+    (some { b with rows := b.rows.map fun r => (r.1, (r.2.map fun c => (complementByte c).getD c).reverse) }, "ok")
 
 end Gv.Spec
